@@ -12,7 +12,7 @@ export const id = 'C11';
 const LOGGING_ATTRS = ['identUnbound', 'member', 'call', 'template', 'arrow', 'objDyn', 'arrDyn', 'cond', 'spreadIdent', 'spreadCall', 'spreadObjLit',
   'classExpr', 'classArr', 'styleExpr', 'onOther', 'onUpdate', 'onObj', 'nativeOnObj', 'strPlain', 'valueless', 'classStr', 'key', 'ref', 'jsxElBraced'];
 const TAGS = ['div', 'importDefault', 'unboundPascal', 'member1', 'KeepAlive', 'Fragment', 'pattern'].map((f) => TAG_FORMS.find((t) => t.form === f || t.name === f));
-const KID_SHAPES = ['none', 'identUnbound', 'call', 'memberExpr', 'cond', 'mixed1', 'mixed2', 'spread', 'spreadCall', 'nestedComp', 'element', 'text', 'arrow', 'object', 'optMember', 'optMemberDeep', 'template', 'binary', 'newExpr', 'arrayLit', 'logicalOr', 'parenCall', 'awaitLike'];
+const KID_SHAPES = ['none', 'identUnbound', 'call', 'memberExpr', 'cond', 'mixed1', 'mixed2', 'spread', 'spreadCall', 'nestedComp', 'element', 'text', 'arrow', 'object', 'optMember', 'optMemberDeep', 'template', 'binary', 'newExpr', 'arrayLit', 'logicalOr', 'parenCall', 'awaitLike', 'elementWithDirective', 'elementWithVModel'];
 const KID_KINDS = ['vnode', 'string', 'slots', 'slotfn', 'array'];
 
 const PROBE_RE = /\b([gfm]\d+)\b/g;
@@ -59,12 +59,17 @@ function buildModelCase(rng) {
   for (let i = 0; i < pre; i++) { const k = rng.pick(['call', 'member', 'identUnbound', 'classExpr', 'spreadCall']); const a = makeAttr(b, rng, k, st); if (a) { attrs.push(a); feat.push(k); } }
   const m = makeModel(b, h, rng.pick(['ident', 'member', 'index']), h.isComp ? rng.pick(['none', 'ns', 'strSecond', 'computedStatic']) === 'computedStatic' ? 'strSecond' : rng.pick(['none', 'ns', 'strSecond']) : 'none', rng.pick(['none', 'arrayList']), 0);
   if (!m) return null;
-  attrs.push({ t: 'model', den: m.den, src: m.attrSrc });
-  const post = rng.int(3);
+  if (h.isComp && m.entrySrc && rng.bool(0.5)) {
+    const m2 = makeModel(b, h, 'ident', 'strSecond', 'none', 1);
+    attrs.push({ t: 'models', src: `v-models={[${m.entrySrc}, ${m2.entrySrc}]}`, items: [{ t: 'model', den: m.den }, { t: 'model', den: m2.den }] });
+    feat.push('v-models');
+  } else attrs.push({ t: 'model', den: m.den, src: m.attrSrc });
+  const post = rng.int(4);
   for (let i = 0; i < post; i++) { const k = rng.pick(['call', 'member', 'onOther']); const a = makeAttr(b, rng, k, st); if (a) { attrs.push(a); feat.push(k); } }
   const el = { tag: h.tag, attrs, children: [], selfClose: true };
   b.addThunk('t0', renderElement(el));
-  return { src: b.source(), spec: { thunks: [{ name: 't0', el }], env: b.env, ctx: 'arrowExpr' }, feature: `model:${host}|${feat.join(',')}` };
+  const elRef = { ...el, attrs: attrs.flatMap((a) => (a.t === 'models' ? a.items : [a])) };
+  return { src: b.source(), spec: { thunks: [{ name: 't0', el: elRef }], env: b.env, ctx: 'arrowExpr' }, feature: `model:${host}|${feat.join(',')}` };
 }
 
 const OPTS = [];
